@@ -254,8 +254,15 @@ func violationRecord(cd *Candidate) map[string]interface{} {
 	var cm map[string]interface{}
 	json.Unmarshal(b, &cm)
 	rec["case"] = cm
+	var em0 map[string]interface{}
+	json.Unmarshal([]byte(cd.Event), &em0)
 	if segs, ok := cm["segs"].([]interface{}); ok && len(segs) > 0 {
-		rec["last"] = segs[len(segs)-1] // the last segment of a reader case
+		rec["last"] = segs[len(segs)-1] // the segment of a reader case the violating event belongs to (default: the last)
+		if em0 != nil && em0["ev"] == "End" {
+			if si, ok := em0["seg"].(float64); ok && int(si) < len(segs) {
+				rec["last"] = segs[int(si)]
+			}
+		}
 	}
 	var em map[string]interface{}
 	json.Unmarshal([]byte(cd.Event), &em)
